@@ -27,6 +27,23 @@ fn authorized(d: &[u8; 6], mac: &[u8; 6], s: Option<(&[u8; 4], &[u8; 16])>) -> b
 
 /// et: concrete EtherType (0x0806, 0x0800, 0x86dd) or None = arbitrary unsupported type;
 /// m = request payload bytes, n = length of the layer-3 packet the stub returns
+/// recorder/config for the authorisation-set stub
+pub static mut AUTH_CFG: (bool, [u8; 6], u32) = (false, [0; 6], 0);
+/// Contract stub for `get_authorized_eth_addr` inside the `reply` harnesses: a set whose
+/// membership test for THIS frame's destination MAC is an arbitrary boolean chosen in the
+/// harness prologue.  That the real set has exactly the membership function Auth(mac, S) of
+/// the property is decided on the real code by c02_auth_*.
+pub fn auth_stub(_mac: &MacAddr, _ips: Option<&HashSet<IpAddr>>) -> HashSet<MacAddr> {
+    let cfg = unsafe { &mut *std::ptr::addr_of_mut!(AUTH_CFG) };
+    cfg.2 += 1;
+    let mut s = HashSet::new();
+    if cfg.0 {
+        let d = cfg.1;
+        s.insert(MacAddr::new(d[0], d[1], d[2], d[3], d[4], d[5]));
+    }
+    s
+}
+
 fn eth_case(et: Option<u16>, m: usize, n: usize) {
     let mut buf: [u8; 14 + 40] = kani::any();
     match et {
@@ -41,23 +58,19 @@ fn eth_case(et: Option<u16>, m: usize, n: usize) {
     }
     let eth_req = EthernetPacket::new(&buf[..14 + m]).unwrap();
     let mac_b: [u8; 6] = kani::any();
-    let a4: [u8; 4] = kani::any();
-    let a6: [u8; 16] = kani::any();
-    let mut s_set = HashSet::new();
-    s_set.insert(IpAddr::V4(Ipv4Addr::from(a4)));
-    s_set.insert(IpAddr::V6(Ipv6Addr::from(a6)));
-    let s_on: bool = kani::any();
-    let mut masscanned = ms_plain([0, 0], MacAddr::from(mac_b));
-    if s_on {
-        masscanned.self_ip_list = Some(&s_set);
-    }
+    let masscanned = ms_plain([0, 0], MacAddr::from(mac_b));
     l4_rec().cfg_len = n;
+    let mut d = [0u8; 6];
+    d.copy_from_slice(&buf[0..6]);
+    let auth: bool = kani::any();
+    unsafe {
+        AUTH_CFG = (auth, d, 0);
+    }
     let mut ci = ClientInfo::new();
     let r = reply(&eth_req, &masscanned, &mut ci);
     let rec = l4_rec();
-    let mut d = [0u8; 6];
-    d.copy_from_slice(&buf[0..6]);
-    let auth = authorized(&d, &mac_b, if s_on { Some((&a4, &a6)) } else { None });
+    assert!(unsafe { AUTH_CFG.2 } >= 1, "C02: destination MAC not checked against the authorised set");
+    assert!(ci.mac.src == Some(eth_req.get_source()) && ci.mac.dst == Some(eth_req.get_destination()), "C20: client_info MAC addresses are not the frame's");
     if !auth || et.is_none() {
         assert!(r.is_none(), "C02: frame for a foreign MAC or with an unsupported EtherType answered");
         assert!(rec.calls == 0, "C02: out-of-scope frame reached layer 3");
@@ -92,32 +105,26 @@ fn eth_case(et: Option<u16>, m: usize, n: usize) {
         assert!(csum_ok(0, &b[14..14 + 4 * ihl]), "C04: IPv4 header checksum invalid");
     }
     kani::cover!(true, "frame emitted");
-    kani::cover!(d == [0xff; 6], "broadcast frame answered");
-    kani::cover!(s_on && d[0] == 0x33 && d[2] == 0xff, "solicited-node multicast frame answered");
-    kani::cover!(s_on && d[0] == 0x01, "IPv4 multicast MAC frame answered");
 }
 
 //# harness: c02_eth_ipv4
 //# props: C02 C03 C04 C01
 //# tier: quick
 //# encodes: layer_2::reply
-//# encodes: layer_2::get_authorized_eth_addr
 //# encodes: pnet_packet::ipv4::checksum
-//# bounds: 14-byte Ethernet header fully symbolic (both MACs), EtherType 0x0800 (IPv4), 20 payload bytes; layer-3/ARP reply of 24 arbitrary bytes or silence; configured MAC symbolic; self-IP list absent or {a4,a6} with all address bytes symbolic
+//# bounds: 14-byte Ethernet header fully symbolic (both MACs), EtherType 0x0800 (IPv4), 20 payload bytes; layer-3/ARP reply of 24 arbitrary bytes or silence; configured MAC symbolic; membership of the destination MAC in the authorised set arbitrary
 //# stubs: layer_2::arp::repl, layer_3::ipv4::repl, layer_3::ipv6::repl -> None or a packet of 24 arbitrary bytes (IPv4: version 4, IHL >= 5 with the header inside the packet - lemma c04_ipv4_*)
-//# stubs: <MacAddr as FromStr>::from_str -> straight-line decoder for the fixed literal 33:33:00:00:00:01
-//# out: self-IP lists with more than one address per family (membership is the container contract); 802.1Q tags
+//# stubs: layer_2::get_authorized_eth_addr -> set with arbitrary membership of this frame's destination (the real set is decided by c02_auth_*)
+//# out: 802.1Q tags
 //# cover: frame emitted
 //# cover: dropped: foreign destination MAC
 //# cover: layer 3 silent
-//# cover: broadcast frame answered
-//# cover: IPv4 multicast MAC frame answered
 #[kani::proof]
 #[kani::unwind(30)]
 #[kani::stub(crate::layer_2::arp::repl, crate::verif_util::l3_arp_stub)]
 #[kani::stub(crate::layer_3::ipv4::repl, crate::verif_util::l3_ipv4_stub)]
 #[kani::stub(crate::layer_3::ipv6::repl, crate::verif_util::l3_ipv6_stub)]
-#[kani::stub(<pnet::util::MacAddr as std::str::FromStr>::from_str, crate::verif_util::mac_from_str_stub)]
+#[kani::stub(crate::layer_2::get_authorized_eth_addr, auth_stub)]
 fn c02_eth_ipv4() {
     eth_case(Some(0x0800), 20, 24)
 }
@@ -126,21 +133,19 @@ fn c02_eth_ipv4() {
 //# props: C02 C03 C04 C01
 //# tier: quick
 //# encodes: layer_2::reply
-//# encodes: layer_2::get_authorized_eth_addr
 //# encodes: pnet_packet::ipv4::checksum
-//# bounds: 14-byte Ethernet header fully symbolic (both MACs), EtherType 0x86dd (IPv6), 40 payload bytes; layer-3/ARP reply of 40 arbitrary bytes or silence; configured MAC symbolic; self-IP list absent or {a4,a6} with all address bytes symbolic
+//# bounds: 14-byte Ethernet header fully symbolic (both MACs), EtherType 0x86dd (IPv6), 40 payload bytes; layer-3/ARP reply of 40 arbitrary bytes or silence; configured MAC symbolic; membership of the destination MAC in the authorised set arbitrary
 //# stubs: layer_2::arp::repl, layer_3::ipv4::repl, layer_3::ipv6::repl -> None or a packet of 40 arbitrary bytes (IPv4: version 4, IHL >= 5 with the header inside the packet - lemma c04_ipv4_*)
-//# stubs: <MacAddr as FromStr>::from_str -> straight-line decoder for the fixed literal 33:33:00:00:00:01
-//# out: self-IP lists with more than one address per family (membership is the container contract); 802.1Q tags
+//# stubs: layer_2::get_authorized_eth_addr -> set with arbitrary membership of this frame's destination (the real set is decided by c02_auth_*)
+//# out: 802.1Q tags
 //# cover: frame emitted
 //# cover: dropped: foreign destination MAC
-//# cover: solicited-node multicast frame answered
 #[kani::proof]
 #[kani::unwind(46)]
 #[kani::stub(crate::layer_2::arp::repl, crate::verif_util::l3_arp_stub)]
 #[kani::stub(crate::layer_3::ipv4::repl, crate::verif_util::l3_ipv4_stub)]
 #[kani::stub(crate::layer_3::ipv6::repl, crate::verif_util::l3_ipv6_stub)]
-#[kani::stub(<pnet::util::MacAddr as std::str::FromStr>::from_str, crate::verif_util::mac_from_str_stub)]
+#[kani::stub(crate::layer_2::get_authorized_eth_addr, auth_stub)]
 fn c02_eth_ipv6() {
     eth_case(Some(0x86dd), 40, 40)
 }
@@ -149,12 +154,11 @@ fn c02_eth_ipv6() {
 //# props: C02 C03 C01
 //# tier: quick
 //# encodes: layer_2::reply
-//# encodes: layer_2::get_authorized_eth_addr
 //# encodes: pnet_packet::ipv4::checksum
-//# bounds: 14-byte Ethernet header fully symbolic (both MACs), EtherType 0x0806 (ARP), 28 payload bytes; layer-3/ARP reply of 28 arbitrary bytes or silence; configured MAC symbolic; self-IP list absent or {a4,a6} with all address bytes symbolic
+//# bounds: 14-byte Ethernet header fully symbolic (both MACs), EtherType 0x0806 (ARP), 28 payload bytes; layer-3/ARP reply of 28 arbitrary bytes or silence; configured MAC symbolic; membership of the destination MAC in the authorised set arbitrary
 //# stubs: layer_2::arp::repl, layer_3::ipv4::repl, layer_3::ipv6::repl -> None or a packet of 28 arbitrary bytes (IPv4: version 4, IHL >= 5 with the header inside the packet - lemma c04_ipv4_*)
-//# stubs: <MacAddr as FromStr>::from_str -> straight-line decoder for the fixed literal 33:33:00:00:00:01
-//# out: self-IP lists with more than one address per family (membership is the container contract); 802.1Q tags
+//# stubs: layer_2::get_authorized_eth_addr -> set with arbitrary membership of this frame's destination (the real set is decided by c02_auth_*)
+//# out: 802.1Q tags
 //# cover: frame emitted
 //# cover: dropped: foreign destination MAC
 #[kani::proof]
@@ -162,7 +166,7 @@ fn c02_eth_ipv6() {
 #[kani::stub(crate::layer_2::arp::repl, crate::verif_util::l3_arp_stub)]
 #[kani::stub(crate::layer_3::ipv4::repl, crate::verif_util::l3_ipv4_stub)]
 #[kani::stub(crate::layer_3::ipv6::repl, crate::verif_util::l3_ipv6_stub)]
-#[kani::stub(<pnet::util::MacAddr as std::str::FromStr>::from_str, crate::verif_util::mac_from_str_stub)]
+#[kani::stub(crate::layer_2::get_authorized_eth_addr, auth_stub)]
 fn c02_eth_arp() {
     eth_case(Some(0x0806), 28, 28)
 }
@@ -171,19 +175,18 @@ fn c02_eth_arp() {
 //# props: C02 C01
 //# tier: quick
 //# encodes: layer_2::reply
-//# encodes: layer_2::get_authorized_eth_addr
 //# encodes: pnet_packet::ipv4::checksum
-//# bounds: 14-byte Ethernet header fully symbolic (both MACs), EtherType symbolic over all values except ARP/IPv4/IPv6, 4 payload bytes; layer-3/ARP reply of 8 arbitrary bytes or silence; configured MAC symbolic; self-IP list absent or {a4,a6} with all address bytes symbolic
+//# bounds: 14-byte Ethernet header fully symbolic (both MACs), EtherType symbolic over all values except ARP/IPv4/IPv6, 4 payload bytes; layer-3/ARP reply of 8 arbitrary bytes or silence; configured MAC symbolic; membership of the destination MAC in the authorised set arbitrary
 //# stubs: layer_2::arp::repl, layer_3::ipv4::repl, layer_3::ipv6::repl -> None or a packet of 8 arbitrary bytes (IPv4: version 4, IHL >= 5 with the header inside the packet - lemma c04_ipv4_*)
-//# stubs: <MacAddr as FromStr>::from_str -> straight-line decoder for the fixed literal 33:33:00:00:00:01
-//# out: self-IP lists with more than one address per family (membership is the container contract); 802.1Q tags
+//# stubs: layer_2::get_authorized_eth_addr -> set with arbitrary membership of this frame's destination (the real set is decided by c02_auth_*)
+//# out: 802.1Q tags
 //# cover: dropped: unsupported EtherType
 #[kani::proof]
 #[kani::unwind(14)]
 #[kani::stub(crate::layer_2::arp::repl, crate::verif_util::l3_arp_stub)]
 #[kani::stub(crate::layer_3::ipv4::repl, crate::verif_util::l3_ipv4_stub)]
 #[kani::stub(crate::layer_3::ipv6::repl, crate::verif_util::l3_ipv6_stub)]
-#[kani::stub(<pnet::util::MacAddr as std::str::FromStr>::from_str, crate::verif_util::mac_from_str_stub)]
+#[kani::stub(crate::layer_2::get_authorized_eth_addr, auth_stub)]
 fn c02_eth_other() {
     eth_case(None, 4, 8)
 }
@@ -192,19 +195,18 @@ fn c02_eth_other() {
 //# props: C01
 //# tier: quick
 //# encodes: layer_2::reply
-//# encodes: layer_2::get_authorized_eth_addr
 //# encodes: pnet_packet::ipv4::checksum
-//# bounds: 14-byte Ethernet header fully symbolic (both MACs), EtherType 0x0800 (IPv4), 19 payload bytes; layer-3/ARP reply of 20 arbitrary bytes or silence; configured MAC symbolic; self-IP list absent or {a4,a6} with all address bytes symbolic
+//# bounds: 14-byte Ethernet header fully symbolic (both MACs), EtherType 0x0800 (IPv4), 19 payload bytes; layer-3/ARP reply of 20 arbitrary bytes or silence; configured MAC symbolic; membership of the destination MAC in the authorised set arbitrary
 //# stubs: layer_2::arp::repl, layer_3::ipv4::repl, layer_3::ipv6::repl -> None or a packet of 20 arbitrary bytes (IPv4: version 4, IHL >= 5 with the header inside the packet - lemma c04_ipv4_*)
-//# stubs: <MacAddr as FromStr>::from_str -> straight-line decoder for the fixed literal 33:33:00:00:00:01
-//# out: self-IP lists with more than one address per family (membership is the container contract); 802.1Q tags
+//# stubs: layer_2::get_authorized_eth_addr -> set with arbitrary membership of this frame's destination (the real set is decided by c02_auth_*)
+//# out: 802.1Q tags
 //# cover: layer-3 header too short
 #[kani::proof]
 #[kani::unwind(26)]
 #[kani::stub(crate::layer_2::arp::repl, crate::verif_util::l3_arp_stub)]
 #[kani::stub(crate::layer_3::ipv4::repl, crate::verif_util::l3_ipv4_stub)]
 #[kani::stub(crate::layer_3::ipv6::repl, crate::verif_util::l3_ipv6_stub)]
-#[kani::stub(<pnet::util::MacAddr as std::str::FromStr>::from_str, crate::verif_util::mac_from_str_stub)]
+#[kani::stub(crate::layer_2::get_authorized_eth_addr, auth_stub)]
 fn c01_eth_ipv4_short() {
     eth_case(Some(0x0800), 19, 20)
 }
@@ -213,19 +215,18 @@ fn c01_eth_ipv4_short() {
 //# props: C01
 //# tier: thorough
 //# encodes: layer_2::reply
-//# encodes: layer_2::get_authorized_eth_addr
 //# encodes: pnet_packet::ipv4::checksum
-//# bounds: 14-byte Ethernet header fully symbolic (both MACs), EtherType 0x86dd (IPv6), 39 payload bytes; layer-3/ARP reply of 40 arbitrary bytes or silence; configured MAC symbolic; self-IP list absent or {a4,a6} with all address bytes symbolic
+//# bounds: 14-byte Ethernet header fully symbolic (both MACs), EtherType 0x86dd (IPv6), 39 payload bytes; layer-3/ARP reply of 40 arbitrary bytes or silence; configured MAC symbolic; membership of the destination MAC in the authorised set arbitrary
 //# stubs: layer_2::arp::repl, layer_3::ipv4::repl, layer_3::ipv6::repl -> None or a packet of 40 arbitrary bytes (IPv4: version 4, IHL >= 5 with the header inside the packet - lemma c04_ipv4_*)
-//# stubs: <MacAddr as FromStr>::from_str -> straight-line decoder for the fixed literal 33:33:00:00:00:01
-//# out: self-IP lists with more than one address per family (membership is the container contract); 802.1Q tags
+//# stubs: layer_2::get_authorized_eth_addr -> set with arbitrary membership of this frame's destination (the real set is decided by c02_auth_*)
+//# out: 802.1Q tags
 //# cover: layer-3 header too short
 #[kani::proof]
 #[kani::unwind(46)]
 #[kani::stub(crate::layer_2::arp::repl, crate::verif_util::l3_arp_stub)]
 #[kani::stub(crate::layer_3::ipv4::repl, crate::verif_util::l3_ipv4_stub)]
 #[kani::stub(crate::layer_3::ipv6::repl, crate::verif_util::l3_ipv6_stub)]
-#[kani::stub(<pnet::util::MacAddr as std::str::FromStr>::from_str, crate::verif_util::mac_from_str_stub)]
+#[kani::stub(crate::layer_2::get_authorized_eth_addr, auth_stub)]
 fn c01_eth_ipv6_short() {
     eth_case(Some(0x86dd), 39, 40)
 }
@@ -234,19 +235,18 @@ fn c01_eth_ipv6_short() {
 //# props: C01
 //# tier: thorough
 //# encodes: layer_2::reply
-//# encodes: layer_2::get_authorized_eth_addr
 //# encodes: pnet_packet::ipv4::checksum
-//# bounds: 14-byte Ethernet header fully symbolic (both MACs), EtherType 0x0806 (ARP), 27 payload bytes; layer-3/ARP reply of 28 arbitrary bytes or silence; configured MAC symbolic; self-IP list absent or {a4,a6} with all address bytes symbolic
+//# bounds: 14-byte Ethernet header fully symbolic (both MACs), EtherType 0x0806 (ARP), 27 payload bytes; layer-3/ARP reply of 28 arbitrary bytes or silence; configured MAC symbolic; membership of the destination MAC in the authorised set arbitrary
 //# stubs: layer_2::arp::repl, layer_3::ipv4::repl, layer_3::ipv6::repl -> None or a packet of 28 arbitrary bytes (IPv4: version 4, IHL >= 5 with the header inside the packet - lemma c04_ipv4_*)
-//# stubs: <MacAddr as FromStr>::from_str -> straight-line decoder for the fixed literal 33:33:00:00:00:01
-//# out: self-IP lists with more than one address per family (membership is the container contract); 802.1Q tags
+//# stubs: layer_2::get_authorized_eth_addr -> set with arbitrary membership of this frame's destination (the real set is decided by c02_auth_*)
+//# out: 802.1Q tags
 //# cover: layer-3 header too short
 #[kani::proof]
 #[kani::unwind(34)]
 #[kani::stub(crate::layer_2::arp::repl, crate::verif_util::l3_arp_stub)]
 #[kani::stub(crate::layer_3::ipv4::repl, crate::verif_util::l3_ipv4_stub)]
 #[kani::stub(crate::layer_3::ipv6::repl, crate::verif_util::l3_ipv6_stub)]
-#[kani::stub(<pnet::util::MacAddr as std::str::FromStr>::from_str, crate::verif_util::mac_from_str_stub)]
+#[kani::stub(crate::layer_2::get_authorized_eth_addr, auth_stub)]
 fn c01_eth_arp_short() {
     eth_case(Some(0x0806), 27, 28)
 }
@@ -255,19 +255,68 @@ fn c01_eth_arp_short() {
 //# props: C01
 //# tier: thorough
 //# encodes: layer_2::reply
-//# encodes: layer_2::get_authorized_eth_addr
 //# encodes: pnet_packet::ipv4::checksum
-//# bounds: 14-byte Ethernet header fully symbolic (both MACs), EtherType 0x0800 (IPv4), 0 payload bytes; layer-3/ARP reply of 20 arbitrary bytes or silence; configured MAC symbolic; self-IP list absent or {a4,a6} with all address bytes symbolic
+//# bounds: 14-byte Ethernet header fully symbolic (both MACs), EtherType 0x0800 (IPv4), 0 payload bytes; layer-3/ARP reply of 20 arbitrary bytes or silence; configured MAC symbolic; membership of the destination MAC in the authorised set arbitrary
 //# stubs: layer_2::arp::repl, layer_3::ipv4::repl, layer_3::ipv6::repl -> None or a packet of 20 arbitrary bytes (IPv4: version 4, IHL >= 5 with the header inside the packet - lemma c04_ipv4_*)
-//# stubs: <MacAddr as FromStr>::from_str -> straight-line decoder for the fixed literal 33:33:00:00:00:01
-//# out: self-IP lists with more than one address per family (membership is the container contract); 802.1Q tags
+//# stubs: layer_2::get_authorized_eth_addr -> set with arbitrary membership of this frame's destination (the real set is decided by c02_auth_*)
+//# out: 802.1Q tags
 //# cover: layer-3 header too short
 #[kani::proof]
 #[kani::unwind(26)]
 #[kani::stub(crate::layer_2::arp::repl, crate::verif_util::l3_arp_stub)]
 #[kani::stub(crate::layer_3::ipv4::repl, crate::verif_util::l3_ipv4_stub)]
 #[kani::stub(crate::layer_3::ipv6::repl, crate::verif_util::l3_ipv6_stub)]
-#[kani::stub(<pnet::util::MacAddr as std::str::FromStr>::from_str, crate::verif_util::mac_from_str_stub)]
+#[kani::stub(crate::layer_2::get_authorized_eth_addr, auth_stub)]
 fn c01_eth_empty() {
     eth_case(Some(0x0800), 0, 20)
+}
+
+/// the real authorised-address set as a membership function of an arbitrary destination MAC
+fn auth_lemma(with_s: bool) {
+    let mac_b: [u8; 6] = kani::any();
+    let d: [u8; 6] = kani::any();
+    let a4: [u8; 4] = kani::any();
+    let a6: [u8; 16] = kani::any();
+    let mut s_set = HashSet::new();
+    s_set.insert(IpAddr::V4(Ipv4Addr::from(a4)));
+    s_set.insert(IpAddr::V6(Ipv6Addr::from(a6)));
+    let mac = MacAddr::from(mac_b);
+    let set = get_authorized_eth_addr(&mac, if with_s { Some(&s_set) } else { None });
+    let got = set.contains(&MacAddr::from(d));
+    let want = authorized(&d, &mac_b, if with_s { Some((&a4, &a6)) } else { None });
+    assert!(got == want, "C02: authorised destination MAC set differs from {own, broadcast, all-nodes, multicast MACs derived from the handled addresses}");
+    kani::cover!(got && d[0] == 0x01, "IPv4-derived multicast MAC authorised");
+    kani::cover!(got && d[2] == 0xff && d[0] == 0x33, "solicited-node multicast MAC authorised");
+    kani::cover!(!got, "foreign MAC not authorised");
+}
+
+//# harness: c02_auth_with_s
+//# props: C02 C01
+//# tier: quick
+//# encodes: layer_2::get_authorized_eth_addr
+//# bounds: configured MAC, destination MAC, one IPv4 and one IPv6 handled address: all bytes symbolic; self-IP list = {a4, a6}
+//# stubs: <MacAddr as FromStr>::from_str -> straight-line decoder for the fixed literal 33:33:00:00:00:01
+//# out: self-IP lists with more than one address per family (each address contributes one MAC independently: the loop body is uniform)
+//# cover: IPv4-derived multicast MAC authorised
+//# cover: solicited-node multicast MAC authorised
+//# cover: foreign MAC not authorised
+#[kani::proof]
+#[kani::unwind(20)]
+#[kani::stub(<pnet::util::MacAddr as std::str::FromStr>::from_str, crate::verif_util::mac_from_str_stub)]
+fn c02_auth_with_s() {
+    auth_lemma(true)
+}
+
+//# harness: c02_auth_without_s
+//# props: C02
+//# tier: quick
+//# encodes: layer_2::get_authorized_eth_addr
+//# bounds: configured MAC and destination MAC symbolic; no self-IP list
+//# stubs: <MacAddr as FromStr>::from_str -> straight-line decoder
+//# cover: foreign MAC not authorised
+#[kani::proof]
+#[kani::unwind(20)]
+#[kani::stub(<pnet::util::MacAddr as std::str::FromStr>::from_str, crate::verif_util::mac_from_str_stub)]
+fn c02_auth_without_s() {
+    auth_lemma(false)
 }
